@@ -284,6 +284,10 @@ func genIterators(g *vlib.G) {
 			t.Count("iterator_protocol_runs", runs)
 			t.Nontrivial()
 			t.Outcome(kind.name)
+			if len(c.errs) > 0 {
+				t.Count("untagged_violations", 1)
+				t.Count("untagged_in:iterators/"+kind.name, 1)
+			}
 			for _, e := range c.errs {
 				t.Failf("%s", e)
 			}
